@@ -43,6 +43,8 @@ pub mod test_private;
 /// Test utilities. We need this module for `MockVM` in criterion benches, which does not include code with `cfg(test)`.
 #[cfg(any(test, feature = "mock_test"))]
 pub mod test_util;
+#[cfg(feature = "verif")]
+pub mod verif;
 
 // The following modules are only public in the mmtk crate. They should only be used in MMTk core.
 /// An analysis framework for collecting data and profiling in GC.
